@@ -55,12 +55,13 @@ type Field struct {
 	MapKey string `json:"map_key,omitempty"` // default "string"; other values only for C18 probes
 	Oneof  string `json:"oneof,omitempty"`
 
-	Nullable   *bool   `json:"nullable,omitempty"` // gogoproto.nullable, nil = not set
-	Embed      bool    `json:"embed,omitempty"`
-	NoStd      bool    `json:"nostd,omitempty"` // timestamp/duration without stdtime/stdduration (probe only)
-	JSONTag    *string `json:"jsontag,omitempty"`
-	CastType   string  `json:"casttype,omitempty"`
-	CustomType string  `json:"customtype,omitempty"`
+	Nullable         *bool   `json:"nullable,omitempty"` // gogoproto.nullable, nil = not set
+	Embed            bool    `json:"embed,omitempty"`
+	NoStd            bool    `json:"nostd,omitempty"`              // timestamp/duration without stdtime/stdduration (probe only)
+	StdDurationOnInt bool    `json:"stdduration_on_int,omitempty"` // int64 field with (gogoproto.stdduration): Go type time.Duration (test.proto: DurationStandard)
+	JSONTag          *string `json:"jsontag,omitempty"`
+	CastType         string  `json:"casttype,omitempty"`
+	CustomType       string  `json:"customtype,omitempty"`
 
 	Comment Comments `json:"comment,omitempty"`
 }
